@@ -44,7 +44,7 @@ OwnErrors == {"ParserError", "SymbolError", "IndentationError"}
 VARIABLES pre,   \* the chosen prefix (constant along a behaviour)
           inp,   \* classes consumed so far
           s,     \* splitter state (record, below)
-          pc     \* "read" | "done"
+          pc     \* "read" | "eof" (last line processed) | "done"
 vars == <<pre, inp, s, pc>>
 
 (***************************************************************************)
@@ -101,9 +101,12 @@ Alt1(b, p) == /\ p + 2 <= Len(b) /\ b[p] = "`" /\ b[p + 1] = "`" /\ b[p + 2] = "
                     /\ \E q \in LineEnds(b) : q - 2 >= m + 1 /\ b[q] = "`" /\ b[q - 1] = "`" /\ b[q - 2] = "`"
 Alt2(b, p) == /\ p <= Len(b) /\ b[p] = "("
               /\ \E e \in (p + 1)..Len(b) : b[e] = "=" /\ \E q \in LineEnds(b) : q > e /\ b[q] = ")"
-Alt4(b, p) == \E e \in (p + 1)..Len(b) :
-                 /\ b[e] = "="
-                 /\ \E j \in p..(e - 1) : (\A i \in p..j : b[i] \notin White) /\ (\A i \in (j + 1)..(e - 1) : b[i] \in White)
+(* 4th alternative as of the fix "left-hand side may contain whitespace":  ^ \S [^=\n]*? \s* [=] ...   *)
+(* (before that fix it was ^ \S+? \s* [=] ..., which accepts a subset - an own error stays legal)      *)
+Alt4(b, p) == /\ p <= Len(b) /\ b[p] \notin White
+              /\ \E e \in (p + 1)..Len(b) :
+                    /\ b[e] = "="
+                    /\ \E j \in p..(e - 1) : (\A i \in (p + 1)..j : b[i] \notin {"=", "n"}) /\ (\A i \in (j + 1)..(e - 1) : b[i] \in White)
 Matches(b) == \E p \in LineStarts(b) : Alt1(b, p) \/ Alt2(b, p) \/ Alt4(b, p)
 
 (* parse_equation :561 - whole statement inserted verbatim *)
@@ -164,13 +167,12 @@ EndCase(st) ==                       \* after the loop (:442-448); st is flushed
   ELSE IF st.fence THEN (IF Faithful THEN "fence-silent" ELSE "fence")
   ELSE "ok"
 
+Conclude0(f, k) == IF k = "unmatched" THEN Fail(f, "ParserError", "unmatched-open")     \* :444-448
+                   ELSE IF k = "fence" THEN Fail(f, "ParserError", "unclosed-fence")
+                   ELSE f
 Finish(st) ==
   IF st.err # "none" THEN st
-  ELSE LET f == Flush(st) IN
-       IF f.err # "none" THEN f
-       ELSE CASE EndCase(f) = "unmatched" -> Fail(f, "ParserError", "unmatched-open")
-              [] EndCase(f) = "fence"     -> Fail(f, "ParserError", "unclosed-fence")
-              [] OTHER                    -> f
+  ELSE LET f == Flush(st) IN IF f.err # "none" THEN f ELSE Conclude0(f, EndCase(f))
 
 RECURSIVE FoldFrom(_, _, _)
 FoldFrom(st, q, i) == IF i > Len(q) THEN st ELSE FoldFrom(Step(st, q[i]), q, i + 1)
@@ -198,32 +200,42 @@ StartComment == CanRead("#") /\ s.err = "none" /\ ~s.cm /\ Take("#", Feed(s, "#"
 SkipComment  == \E c \in Classes \ {"n"} : CanRead(c) /\ s.err = "none" /\ s.cm /\ Take(c, Feed(s, c))
 SkipAfterError == \E c \in Classes : CanRead(c) /\ s.err # "none" /\ Take(c, Step(s, c))
 
-NlStep == CanRead("n") /\ s.err = "none" /\ Take("n", FeedNl(s))
-OpenFence       == LineCase(s) = "open"    /\ NlStep
-CloseBeforeOpen == LineCase(s) = "neg"     /\ NlStep
-Continue        == LineCase(s) = "more"    /\ NlStep
-SkipBlank       == LineCase(s) = "blank"   /\ NlStep
-RejectIndent    == LineCase(s) = "indent"  /\ NlStep
-RejectNoMatch   == LineCase(s) = "nomatch" /\ NlStep
-RejectNoLhs     == LineCase(s) = "nolhs"   /\ NlStep      \* specified (the code yields the statement)
-Yield           == LineCase(s) = "yield"   /\ NlStep
+NlReady == CanRead("n") /\ s.err = "none"
+NlTake  == Take("n", FeedNl(s))
+OpenFence       == NlReady /\ LineCase(s) = "open"    /\ NlTake
+CloseBeforeOpen == NlReady /\ LineCase(s) = "neg"     /\ NlTake
+Continue        == NlReady /\ LineCase(s) = "more"    /\ NlTake
+SkipBlank       == NlReady /\ LineCase(s) = "blank"   /\ NlTake
+RejectIndent    == NlReady /\ LineCase(s) = "indent"  /\ NlTake
+RejectNoMatch   == NlReady /\ LineCase(s) = "nomatch" /\ NlTake
+RejectNoLhs     == NlReady /\ LineCase(s) = "nolhs"   /\ NlTake      \* specified (the code yields the statement)
+Yield           == NlReady /\ LineCase(s) = "yield"   /\ NlTake
 
+(* end of input: the last line (if any) goes through the loop body once more (splitlines gives a last line *)
+(* without '\n'), then the check after the loop (:442-448)                                               *)
 AtEof == pc = "read" /\ Len(inp) >= Len(pre) /\ AdmitEnd(pre, inp)
+ToEof(st) == /\ s' = st
+             /\ pc' = "eof"
+             /\ UNCHANGED <<pre, inp>>
+LastLine   == AtEof /\ s.err = "none" /\ s.pend /\ ToEof(LineEnd(s, s.pos))
+NoLastLine == AtEof /\ ~(s.err = "none" /\ s.pend) /\ ToEof(s)
+
 End(st) == /\ s' = st
            /\ pc' = "done"
            /\ UNCHANGED <<pre, inp>>
-EndAfterError == AtEof /\ s.err # "none" /\ End(s)
-EndLineError  == AtEof /\ s.err = "none" /\ Flush(s).err # "none" /\ End(Flush(s))
-EndFlushed == AtEof /\ s.err = "none" /\ Flush(s).err = "none" /\ End(Finish(s))
-EndUnmatched     == EndCase(Flush(s)) = "unmatched"    /\ EndFlushed
-EndInFence       == EndCase(Flush(s)) = "fence"        /\ EndFlushed   \* specified (the code returns silently)
-EndInFenceSilent == EndCase(Flush(s)) = "fence-silent" /\ EndFlushed   \* what the code does; only with Faithful
-EndOk            == EndCase(Flush(s)) = "ok"           /\ EndFlushed
+EndError      == pc = "eof" /\ s.err # "none" /\ End(s)                                  \* raised in the loop
+EndUnmatched  == pc = "eof" /\ s.err = "none" /\ EndCase(s) = "unmatched" /\ End(Conclude0(s, "unmatched"))
+(* specified: the code returns silently *)
+EndInFence    == pc = "eof" /\ s.err = "none" /\ EndCase(s) = "fence" /\ End(Conclude0(s, "fence"))
+(* what the code does; only with Faithful *)
+EndInFenceSilent == pc = "eof" /\ s.err = "none" /\ EndCase(s) = "fence-silent" /\ End(s)
+EndOk         == pc = "eof" /\ s.err = "none" /\ EndCase(s) = "ok" /\ End(s)
 
 Next == \/ ReadChar \/ StartComment \/ SkipComment \/ SkipAfterError
         \/ OpenFence \/ CloseBeforeOpen \/ Continue \/ SkipBlank
         \/ RejectIndent \/ RejectNoMatch \/ RejectNoLhs \/ Yield
-        \/ EndAfterError \/ EndLineError \/ EndUnmatched \/ EndInFence \/ EndInFenceSilent \/ EndOk
+        \/ LastLine \/ NoLastLine
+        \/ EndError \/ EndUnmatched \/ EndInFence \/ EndInFenceSilent \/ EndOk
 
 Spec == Init /\ [][Next]_vars
 Done == pc = "done"
@@ -231,7 +243,7 @@ Done == pc = "done"
 -----------------------------------------------------------------------------
 (* property layer: stated on the input and the outcome only (inp, s.stmts, s.err) *)
 
-TypeOK == /\ pc \in {"read", "done"}
+TypeOK == /\ pc \in {"read", "eof", "done"}
           /\ s.pos = Len(inp)
           /\ s.depth >= 0
           /\ s.err \in OwnErrors \cup {"none"}
